@@ -17,6 +17,28 @@ CLAIMS = {
   design_ref="DESIGN.md section 5, C13",
   note=_TB + "Asserts are stated beliefs; feasibility of paths is not considered.",
   technique="static analysis: role-anchored AST lint + CFG dominance / must-pass-through queries"),
+ "C03": dict(
+  text="Structural necessary conditions of no-look-ahead and schedule independence decided on the source: the events of "
+       "a backtesting pass are fixed before any suspension point (lazy generator vs await), Exchange._on_bar_event does "
+       "prices -> matching -> forward with no await before the forward, _process_order/add_fill reachable only from the "
+       "bar handler and stamped with the bar's time, strategies subscribed to the derived source only, un-timed "
+       "pool.wait() post-dominates every push of a pass, handler-order containers are order-preserving and no set is "
+       "iterated on the dispatch path. Equality of complete fill histories across max_concurrent values / hash seeds is "
+       "a statement about runs and is not claimed; the rules remove the schedule-dependent choices found.",
+  design_ref="DESIGN.md section 5, C03",
+  note=_TB + "asyncio: only await/async for/async with suspend. Strategy handlers are outside the analysed code.",
+  technique="static analysis: no-await-between / lazy-generator rule, CFG dominance, who-may-call over mypy-resolved callees, typed container lint"),
+ "C14": dict(
+  text="Lifecycle phases (initialize group exits before main group starts; single finalize site in the enclosing finally, "
+       "through the no-raise gather, after pool.cancel() then pool.wait()), fault isolation of every handler/job "
+       "invocation, who-may-spawn tasks, capacity test evaluated on all orderings of {len, max} and dominating the "
+       "insertion with no suspension in between, re-entrancy rule for async methods reachable from two coroutines of one "
+       "gather (values obtained across an await may drive only idempotent or membership-guarded mutations), and the "
+       "role-anchored rule that every @contextmanager generator runs its post-yield statements on the exception path. "
+       "'Ends promptly' and which exception run() surfaces for every fault placement are not claimed.",
+  design_ref="DESIGN.md section 5, C14",
+  note=_TB + "Concurrency is discovered from gather() sites only (the two dispatchers' own code).",
+  technique="static analysis: CFG path rules, call-graph reachability for re-entrancy, taint across await, context-manager restore rule"),
 }
 
 NOT_APPLICABLE = {}
